@@ -93,9 +93,9 @@ def judge_next(cal, exc2, rows_before, nb_before):
 def run_fault(cfg, source, k, n, twin, prefix=None, folder=False, sleep_at=None):
     """One fault position (and, for RL, one schedule). Returns (violations, controller or None, fired)."""
     rl = "scheduler" in cfg
-    models.reset(fault_at=k if source == "model" else None)
+    models.reset(fault_at=k if source in ("model", "interrupt") else None, interrupt=source == "interrupt")
     rec = C.Recorder(fault={source: k} if source in ("loss", "sampler") else None)
-    expected = models.InjectedModelFault if source == "model" else C.InjectedFault
+    expected = models.InjectedModelFault if source == "model" else models.InjectedModelInterrupt if source == "interrupt" else C.InjectedFault
     before = set(threading.enumerate())
     out = {}
     with C.scratch() as tmp:
@@ -108,22 +108,24 @@ def run_fault(cfg, source, k, n, twin, prefix=None, folder=False, sleep_at=None)
                 with quiet():
                     cal.calibrate(n)
                 out["caught"] = None
-            except Exception as e:  # noqa: BLE001
+            except (Exception, models.InjectedModelInterrupt) as e:  # noqa: BLE001
                 out["caught"] = e
             out["rows"], out["nb"] = cal.n_sampled_params, cal.current_batch_index
-            out["fired"] = out["caught"] is not None or (source == "model" and models.N_CALLS > k) or (source == "loss" and len(rec.loss_calls) > k) or (source == "sampler" and rec.n_sample_batch > k)
+            out["fired"] = out["caught"] is not None or (source in ("model", "interrupt") and models.N_CALLS > k) or (source == "loss" and len(rec.loss_calls) > k) or (source == "sampler" and rec.n_sample_batch > k)
             out["mid_threads"] = [t.name for t in set(threading.enumerate()) - before if not rl]
             out["agent_alive"] = bool(rl and rh.vt.live_threads())
             out["first"] = judge(cal, out["caught"], expected, twin, out["mid_threads"], ["agent"] if out["agent_alive"] else [])
             # no more faults: the same object must be usable
             models.FAULT_AT = None
             rec.fault = {}
+            rec2 = C.Recorder()
             try:
-                with quiet():
+                with rec2, quiet():
                     cal.calibrate(1)
                 out["exc2"] = None
             except Exception as e:  # noqa: BLE001
                 out["exc2"] = e
+            out["next_sampler"] = rec2.sched_calls[0]["index"] if rec2.sched_calls else None
             return cal
 
         with rec:
@@ -146,6 +148,8 @@ def run_fault(cfg, source, k, n, twin, prefix=None, folder=False, sleep_at=None)
         v.append(("thread-left-running", f"controlled threads alive at the end: {leaked}"))
     if not v:
         v += judge_next(out["cal"], out["exc2"], out["rows"], out["nb"])
+    if not v and not rl and out.get("next_sampler") is not None and out["next_sampler"] != out["nb"] % len(cfg["lineup"]):
+        v.append(("retry-by-wrong-sampler", f"after the failed batch {out['nb']} the next calibrate(1) used sampler #{out['next_sampler']}; round-robin prescribes #{out['nb'] % len(cfg['lineup'])} for batch {out['nb']}"))
     return v, ctl, True
 
 
@@ -262,14 +266,19 @@ def main(ctx):
     model_faults = [("model", k) for k in range(n * calls_per_batch)]
     loss_faults = [("loss", k) for k in range(n * 2)]
     sampler_faults = [("sampler", k) for k in range(n + 2)]
-    allf = model_faults + loss_faults + sampler_faults
+    interrupts = [("interrupt", k) for k in range(0, n * calls_per_batch, 2)]
+    allf = model_faults + loss_faults + sampler_faults + interrupts
     for folder in (False, True):
         for i in range(0, len(allf), 6):
             cells.append({"cfg": base_cfg("rr", S, ens), "n": n, "faults": allf[i:i + 6], "folder": folder})
     for i in range(0, len(allf), 2):
         cells.append({"cfg": base_cfg("rl", S, ens), "n": n, "faults": allf[i:i + 2], "bound": 1 if ctx.quick else 2})
+    # a line-up whose second sampler cannot run on an empty history: a retry by the wrong sampler is not even possible
+    hb = dict(base_cfg("rr", S + 1, ens), lineup=[{"cls": "Halton", "bs": 2}, {"cls": "BestBatch", "bs": 2}])
+    for i in range(0, len(allf), 8):
+        cells.append({"cfg": hb, "n": n, "faults": allf[i:i + 8], "folder": False})
     cells.append({"kind": "early-stop", "cfg": base_cfg("rl", S, 1), "n": 6, "bound": 1 if ctx.quick else 2})
-    ctx.bounds = {"batches": n, "ensemble": ens, "early_stop": "RL scheduler left through the convergence break (no fault), every interleaving modulo independence", "lineup": [s["cls"] for s in LINEUP], "fault_sources": ["model", "loss", "sampler"],
+    ctx.bounds = {"batches": n, "ensemble": ens, "early_stop": "RL scheduler left through the convergence break (no fault), every interleaving modulo independence", "lineup": [s["cls"] for s in LINEUP], "fault_sources": ["model", "loss", "sampler", "interrupt (a KeyboardInterrupt subclass raised by the model)"],
                   "fault_positions": len(allf), "rr": "with and without saving folder", "rl": "every interleaving modulo commutation of independent steps (sleep sets), capped at 2000 per fault position"}
     ctx.rule = "one execution per (scheduler, folder, fault source, invocation index[, schedule]); every one injects exactly one fault"
     ctx.assumptions = ["n_jobs=1 (the fault position must be owned)", "RL + saving folder is not reachable (C04 known finding)"]
